@@ -366,6 +366,114 @@ c_tc.sampler = _tc_sampler
 c_gi.sampler = _gi_sampler
 
 
+# ------------------------------------------------------------------ common time window (_get_common_time_period)
+import pandas as _pd      # noqa: E402
+
+
+class NsTime:
+    """an instant as a symbolic integer count of nanoseconds (what pandas.Timestamp / numpy.datetime64[ns] hold).
+    Ordered by the count; a (symbolic or real) timedelta -- microsecond resolution -- is added exactly."""
+    __pyvc_symbolic__ = True
+    __pyvc_native__ = True
+
+    def __init__(self, ns):
+        self.ns = ns
+
+    def _o(self, o):
+        if isinstance(o, NsTime):
+            return o.ns
+        raise _sym.OutsideSubset("NsTime compared with %r" % (type(o).__name__,))
+
+    def __lt__(self, o): return self.ns < self._o(o)
+    def __le__(self, o): return self.ns <= self._o(o)
+    def __gt__(self, o): return self.ns > self._o(o)
+    def __ge__(self, o): return self.ns >= self._o(o)
+    def __add__(self, td): return NsTime(self.ns + td_us(td) * 1000)
+    def __sub__(self, td): return NsTime(self.ns - td_us(td) * 1000)
+    def tz_localize(self, tz): return self
+
+
+@_model(_pd.Timestamp)
+def _pd_timestamp(interp, v=None, *a, **k):
+    """pandas.Timestamp(<integer>) is the instant that many nanoseconds after the epoch"""
+    if isinstance(v, NsTime):
+        return v
+    if isinstance(v, _Sym):
+        return NsTime(v)
+    return _pd.Timestamp(v, *a, **k)
+
+
+@_model(_pd.Timedelta)
+def _pd_timedelta(interp, v=None, *a, **k):
+    if isinstance(v, _ts.STimedelta):
+        return v
+    return _pd.Timedelta(v, *a, **k)
+
+
+@_model(_np.datetime64)
+def _np_datetime64(interp, v=None, *a):
+    if isinstance(v, NsTime):
+        return v.ns           # compared with the integer nanosecond counts of a datetime64[ns] array
+    return _np.datetime64(v, *a) if v is not None else _np.datetime64()
+
+
+class GhostTimeVar:
+    """the `time` variable of a dataset, one-dimensional along `dim`.  ASSUMED xarray contract: `.values` are its
+    values; `.where(mask)` keeps the values where mask holds and puts NaT elsewhere; `.dropna(dim)` of that keeps exactly
+    the elements where mask holds, in their order (the time stamps themselves are never NaT)."""
+    __pyvc_symbolic__ = True
+    __pyvc_native__ = True
+
+    def __init__(self, values, dim="obs", keep=None):
+        self.values, self.dims, self.keep = values, (dim,), keep
+
+    def where(self, mask):
+        return GhostTimeVar(self.values, self.dims[0], keep=mask)
+
+    def dropna(self, dim):
+        if dim != self.dims[0]:
+            raise ValueError("no dimension %r" % (dim,))
+        return self
+
+
+class GhostDataset:
+    __pyvc_symbolic__ = True
+    __pyvc_native__ = True
+
+    def __init__(self, time):
+        self.time = time
+
+
+REG.inline_ok.add(M + "Collocator._get_common_time_period")
+ASSUMPTIONS.append("xarray: DataArray.where(mask).dropna(dim) of a one-dimensional time variable keeps exactly the elements where mask holds; "
+                   "pandas.Timestamp(<int>) is that many ns after the epoch, Timestamp +- Timedelta is exact; numpy min/max of a non-empty "
+                   "vector bound every element and are attained")
+
+
+@theorem(P, "common-time-window")
+def thm_window():
+    """_get_common_time_period: the selection keeps no point outside [start, end] and loses no point that has a partner:
+    whenever t1[i] and t2[j] both lie in [start, end] and |t1[i] - t2[j]| < max_interval, both i and j are kept."""
+    ctx = _sym.ctx()
+    n1, n2 = fresh("n1", "int"), fresh("n2", "int")
+    requires(n1 >= 1, n2 >= 1)
+    t1, t2 = _fa(ctx, "t1_ns", (n1,), "int"), _fa(ctx, "t2_ns", (n2,), "int")
+    t1.time_unit = t2.time_unit = "ns"
+    mi = _ts.STimedelta(fresh("max_interval_us", "int"))
+    requires(mi.total_us >= 0)
+    start, end = NsTime(fresh("start_ns", "int")), NsTime(fresh("end_ns", "int"))
+    pp, sp = Collocator._get_common_time_period(GhostDataset(GhostTimeVar(t1)), GhostDataset(GhostTimeVar(t2)), mi, start, end)
+    i, j = fresh("i", "int"), fresh("j", "int")
+    requires(0 <= i, i < n1, 0 <= j, j < n2)
+    in1 = start.ns <= t1[i] and t1[i] <= end.ns
+    in2 = start.ns <= t2[j] and t2[j] <= end.ns
+    ensures(implies(pp.keep[i], in1), id="a kept primary point lies within [start, end]")
+    ensures(implies(sp.keep[j], in2), id="a kept secondary point lies within [start, end]")
+    close = abs(t1[i] - t2[j]) < mi.total_us * 1000
+    ensures(implies(in1 and in2 and close, pp.keep[i] and sp.keep[j]),
+            id="both points of a pair within [start, end] and closer than max_interval are kept")
+
+
 # ------------------------------------------------------------------ index translation after the NaN filter
 def _setup_to(ctx, cfg):
     n, n1, n2 = ctx.fresh("npairs", "int"), ctx.fresh("n1", "int"), ctx.fresh("n2", "int")
